@@ -123,6 +123,38 @@ func RecomputeUTXOCommitment(db ethdb.Iteratee, loc common.Location) (common.Has
 	return ms.Hash(), n, nil
 }
 
+// spentAndTrimmed reports whether the head block spends an unlocked output of a trimmable
+// denomination that was created exactly TrimDepth blocks earlier (i.e. in the block whose
+// outputs the head trims).
+func spentAndTrimmed(nd *Node, head *types.WorkObject) bool {
+	blk := nd.Core.GetBlockByHash(head.Hash())
+	if blk == nil {
+		return false
+	}
+	spent, err := rawdb.ReadSpentUTXOs(nd.DB, head.Hash())
+	if err != nil {
+		return false
+	}
+	for _, s := range spent {
+		if s.Denomination > types.MaxTrimDenomination || s.Lock == nil || s.Lock.Sign() != 0 {
+			continue
+		}
+		depth := types.TrimDepths[s.Denomination]
+		if head.NumberU64(Zone) <= depth {
+			continue
+		}
+		trimmedBlock := rawdb.ReadCanonicalHash(nd.DB, head.NumberU64(Zone)-depth)
+		keys, _ := rawdb.ReadCreatedUTXOKeys(nd.DB, trimmedBlock)
+		want := rawdb.UtxoKeyWithDenomination(s.TxHash, s.Index, s.Denomination)
+		for _, k := range keys {
+			if bytes.Equal(k, want) {
+				return true
+			}
+		}
+	}
+	return false
+}
+
 // KV is a flat key/value listing used for byte-exact comparisons.
 type KV struct{ K, V []byte }
 
@@ -290,6 +322,9 @@ func CheckHeadCommitment(nd *Node) (string, string) {
 		return "undecodable-record", err.Error()
 	}
 	if root != head.UTXORoot() {
+		if spentAndTrimmed(nd, head) {
+			return "spent-and-trimmed-same-block", fmt.Sprintf("head %x #%d spends a trimmable unlocked Qi output in the very block that trims it; header UTXORoot %x but database content hashes to %x", head.Hash().Bytes()[:6], head.NumberU64(Zone), head.UTXORoot().Bytes()[:8], root.Bytes()[:8])
+		}
 		return "utxo-root", fmt.Sprintf("head %x #%d: header UTXORoot %x but database content hashes to %x (%d records)", head.Hash().Bytes()[:6], head.NumberU64(Zone), head.UTXORoot().Bytes()[:8], root.Bytes()[:8], n)
 	}
 	if ms := rawdb.ReadMultiSet(nd.DB, head.Hash()); ms == nil {
